@@ -1,9 +1,520 @@
+// C19 correspondence harness: ParsePacketV4 / ParsePacketV6 on arbitrary IP-layer byte strings
+// (every length 0..80 and beyond, every protocol number, port pairs around every common port),
+// each together with a reverse-direction twin packet and EPHash.Reverse() of the extracted key;
+// plus the exhaustive true-set of isCommonPort over 256 protocols x 65536 ports (once per run).
 package main
 
 import (
+	"encoding/hex"
+	"encoding/json"
 	"fmt"
+	"strconv"
+	"strings"
+
+	"verifharness/vhlib"
 
 	"github.com/els0r/goProbe/v4/pkg/capture"
+	"github.com/els0r/goProbe/v4/pkg/capture/capturetypes"
+	slimcap "github.com/fako1024/slimcap/capture"
 )
 
-func main() { fmt.Println(capture.VerifIsCommonPort([]byte{0, 53}, 6)) }
+type input struct {
+	Kind string `json:"kind"` // table | parse | rev
+	V6   bool   `json:"v6,omitempty"`
+	P    string `json:"p,omitempty"` // hex: the IP layer handed to the parser
+	Q    string `json:"q,omitempty"` // hex: reverse-direction packet of the same conversation
+	H    string `json:"h,omitempty"` // hex: hash for kind rev
+	Gen  string `json:"gen,omitempty"`
+}
+
+type obsT struct {
+	Class string `json:"class"` // ok frag trunc panic errno:N
+	Hash  string `json:"hash,omitempty"`
+	Aux   int    `json:"aux"`
+	hash  []byte
+}
+
+// ---------------------------------------------------------------- packet construction
+
+type lay struct {
+	hdr, protoPos, sip, alen int
+	icmp                     byte
+}
+
+func layout(v6 bool) lay {
+	if v6 {
+		return lay{40, 6, 8, 16, 58}
+	}
+	return lay{20, 9, 12, 4, 1}
+}
+
+func hasPorts(p byte) bool { return p == 6 || p == 17 }
+
+var commons = []int{53, 80, 443, 445, 8080}
+
+// ports whose bytes are close to a table entry in one coordinate only, and range ends
+var oddPorts = []int{0, 1, 52, 54, 79, 81, 442, 444, 446, 8079, 8081, 309, 187, 189, 256 + 53, 512 + 187, 36895, 13568, 20480,
+	47873, 48385, 8191, 8192, 8336, 7936, 144, 31, 65535, 32768, 32767, 1024, 49152, 60999}
+
+func fill(r *vhlib.Rand, n int) []byte {
+	b := make([]byte, n)
+	for i := range b {
+		b[i] = byte(r.Intn(256))
+	}
+	return b
+}
+
+func put(b []byte, i int, v byte) {
+	if i < len(b) {
+		b[i] = v
+	}
+}
+
+func putPort(b []byte, i int, port int) {
+	put(b, i, byte(port>>8))
+	put(b, i+1, byte(port))
+}
+
+// mkPacket builds an IP layer of n bytes with the given protocol, fragment bytes (v4) and ports
+func mkPacket(r *vhlib.Rand, v6 bool, n int, proto byte, b6, b7 byte, sport, dport int) []byte {
+	L := layout(v6)
+	b := fill(r, n)
+	if v6 {
+		put(b, 0, 0x60|byte(r.Intn(16)))
+	} else {
+		put(b, 0, 0x45)
+		put(b, 6, b6)
+		put(b, 7, b7)
+	}
+	put(b, L.protoPos, proto)
+	if sport >= 0 {
+		putPort(b, L.hdr, sport)
+	}
+	if dport >= 0 {
+		putPort(b, L.hdr+2, dport)
+	}
+	return b
+}
+
+// twin: same length / protocol / fragment field, addresses swapped, ports swapped (when the four
+// port bytes exist); with noise, every byte that is not part of the key is re-drawn
+func twin(r *vhlib.Rand, v6 bool, p []byte, noise bool) []byte {
+	L := layout(v6)
+	q := append([]byte(nil), p...)
+	n := len(p)
+	if n < L.hdr {
+		return q
+	}
+	proto := p[L.protoPos]
+	keep := make([]bool, n)
+	keep[0] = true
+	keep[L.protoPos] = true
+	if !v6 {
+		keep[6], keep[7] = true, true
+	}
+	for i := 0; i < 2*L.alen; i++ {
+		keep[L.sip+i] = true
+	}
+	copy(q[L.sip:L.sip+L.alen], p[L.sip+L.alen:L.sip+2*L.alen])
+	copy(q[L.sip+L.alen:L.sip+2*L.alen], p[L.sip:L.sip+L.alen])
+	if n >= L.hdr+4 && (hasPorts(proto) || r.Bool()) {
+		copy(q[L.hdr:L.hdr+2], p[L.hdr+2:L.hdr+4])
+		copy(q[L.hdr+2:L.hdr+4], p[L.hdr:L.hdr+2])
+		if hasPorts(proto) {
+			for i := 0; i < 4; i++ {
+				keep[L.hdr+i] = true
+			}
+		}
+	}
+	if noise {
+		for i := range q {
+			if !keep[i] {
+				q[i] = byte(r.Intn(256))
+			}
+		}
+	}
+	return q
+}
+
+func parseCase(r *vhlib.Rand, v6 bool, p []byte, gen string) input {
+	q := twin(r, v6, p, r.Bool())
+	return input{Kind: "parse", V6: v6, P: hex.EncodeToString(p), Q: hex.EncodeToString(q), Gen: gen}
+}
+
+// ---------------------------------------------------------------- deterministic prefix
+
+type spec struct {
+	v6           bool
+	n            int
+	proto        byte
+	b6, b7       byte
+	sport, dport int
+	gen          string
+}
+
+var prefix []spec
+
+func init() {
+	add := func(s spec) { prefix = append(prefix, s) }
+	// A: length boundaries for each protocol class
+	for _, v6 := range []bool{false, true} {
+		lens := []int{0, 1, 19, 20, 21, 23, 24, 25, 33, 34, 35, 80}
+		protos := []byte{6, 17, 1, 50, 47, 58}
+		if v6 {
+			lens = []int{0, 39, 40, 41, 43, 44, 45, 53, 54, 55, 80}
+			protos = []byte{6, 17, 58, 50, 47, 1}
+		}
+		for _, pr := range protos {
+			for _, n := range lens {
+				add(spec{v6, n, pr, 0x40, 0, 40000 + n, 443, "len-boundary"})
+			}
+		}
+	}
+	// B: IPv4 fragment field
+	for _, pr := range []byte{6, 17, 1, 50, 0, 49, 51} {
+		for _, f := range [][2]byte{{0x20, 0}, {0x40, 0}, {0, 1}, {0x1f, 0xff}, {0xe0, 0}, {0, 0xb9}, {0x20, 0xb9}, {1, 0}, {0, 0}} {
+			add(spec{false, 40, pr, f[0], f[1], 33000, 22, "frag-field"})
+		}
+	}
+	// every single bit of bytes 6..7 alone (13 offset bits, 3 flag bits), and each offset bit with MF
+	for _, pr := range []byte{6, 17, 50} {
+		for bit := 0; bit < 16; bit++ {
+			v := 1 << bit
+			add(spec{false, 40, pr, byte(v >> 8), byte(v), 33000, 22, "frag-bit"})
+			if bit < 13 && pr == 6 {
+				add(spec{false, 40, pr, byte(v>>8) | 0x20, byte(v), 33000, 22, "frag-bit"})
+			}
+		}
+	}
+	// C: ports around every common port, on either side and on both
+	for _, v6 := range []bool{false, true} {
+		n := 34
+		if v6 {
+			n = 54
+		}
+		for _, pr := range []byte{6, 17} {
+			for _, c := range commons {
+				for d := -1; d <= 1; d++ {
+					add(spec{v6, n, pr, 0, 0, c + d, 40000, "common-sport"})
+					add(spec{v6, n, pr, 0, 0, 40000, c + d, "common-dport"})
+					add(spec{v6, n, pr, 0, 0, c + d, c + d, "common-both"})
+				}
+			}
+			add(spec{v6, n, pr, 0, 0, 53, 80, "common-pair"})
+			add(spec{v6, n, pr, 0, 0, 443, 53, "common-pair"})
+			add(spec{v6, n, pr, 0, 0, 8080, 445, "common-pair"})
+			for _, o := range oddPorts {
+				add(spec{v6, n, pr, 0, 0, o, 51000, "odd-sport"})
+				add(spec{v6, n, pr, 0, 0, 51000, o, "odd-dport"})
+			}
+		}
+	}
+	// D: every protocol number, both versions, with a common port on one side
+	for _, v6 := range []bool{false, true} {
+		n := 34
+		if v6 {
+			n = 54
+		}
+		for pr := 0; pr < 256; pr++ {
+			if pr%2 == 0 {
+				add(spec{v6, n, byte(pr), 0, 0, 53, 40000 + pr, "all-protos"})
+			} else {
+				add(spec{v6, n, byte(pr), 0, 0, 40000 + pr, 443, "all-protos"})
+			}
+		}
+	}
+}
+
+// ---------------------------------------------------------------- generator
+
+func pickPort(r *vhlib.Rand) int {
+	switch k := r.Intn(100); {
+	case k < 30:
+		return vhlib.Pick(r, commons) + r.Intn(3) - 1
+	case k < 50:
+		return vhlib.Pick(r, oddPorts)
+	case k < 60:
+		return vhlib.Pick(r, commons)
+	default:
+		return r.Intn(65536)
+	}
+}
+
+func gen(r *vhlib.Rand, i int, o vhlib.Opts) any {
+	if i == 0 {
+		return input{Kind: "table"}
+	}
+	if i-1 < len(prefix) {
+		s := prefix[i-1]
+		fr := vhlib.NewRand(uint64(7919*i + 13)) // fixed content for the boundary list
+		return parseCase(fr, s.v6, mkPacket(fr, s.v6, s.n, s.proto, s.b6, s.b7, s.sport, s.dport), s.gen)
+	}
+	if r.Chance(4) {
+		n := 13
+		v6 := r.Bool()
+		if v6 {
+			n = 37
+		}
+		return input{Kind: "rev", V6: v6, H: hex.EncodeToString(fill(r, n)), Gen: "random-hash"}
+	}
+	v6 := r.Bool()
+	L := layout(v6)
+	var n int
+	switch k := r.Intn(100); {
+	case k < 55:
+		n = L.hdr + r.Intn(81-L.hdr)
+	case k < 80:
+		n = L.hdr + vhlib.Pick(r, []int{0, 1, 3, 4, 5, 13, 14, 15}) // around the three limits
+	case k < 90:
+		n = r.Intn(L.hdr) // shorter than the fixed header
+	case k < 97:
+		n = 20 + r.Intn(61)
+	default:
+		n = 81 + r.Intn(40)
+	}
+	if o.Search && r.Chance(50) {
+		n = L.hdr + vhlib.Pick(r, []int{0, 1, 3, 4, 13, 14})
+	}
+	var proto byte
+	switch k := r.Intn(100); {
+	case k < 35:
+		proto = 6
+	case k < 65:
+		proto = 17
+	case k < 75:
+		proto = L.icmp
+	case k < 80:
+		proto = 50
+	case k < 87:
+		proto = vhlib.Pick(r, []byte{1, 58, 0, 255, 18, 16, 47, 132, 5, 7, 51})
+	default:
+		proto = byte(r.Intn(256))
+	}
+	var b6, b7 byte
+	switch k := r.Intn(100); {
+	case k < 60:
+		b6, b7 = vhlib.Pick(r, []byte{0, 0x40}), 0
+	case k < 70:
+		b6, b7 = vhlib.Pick(r, []byte{0x20, 0x60, 0x80, 0xe0}), 0 // flags only: first fragment
+	case k < 80:
+		v := 1 << r.Intn(16) // one bit
+		b6, b7 = byte(v>>8), byte(v)
+	default:
+		b6, b7 = byte(r.Intn(256)), byte(r.Intn(256))
+	}
+	p := mkPacket(r, v6, n, proto, b6, b7, pickPort(r), pickPort(r))
+	in := parseCase(r, v6, p, "random")
+	if r.Chance(5) && n >= L.hdr { // a second packet that is NOT a twin: only its own parse is judged
+		in.Q = hex.EncodeToString(mkPacket(r, v6, n, proto, b6, b7, pickPort(r), pickPort(r)))
+		in.Gen = "random-nontwin"
+	}
+	return in
+}
+
+// ---------------------------------------------------------------- running the real code
+
+func parse(v6 bool, b []byte) (o obsT) {
+	buf := make([]byte, len(b)) // cap == len: a slice expression beyond len panics as an index does
+	copy(buf, b)
+	defer func() {
+		if r := recover(); r != nil {
+			o = obsT{Class: "panic"}
+		}
+	}()
+	var errno capturetypes.ParsingErrno
+	var aux byte
+	var h []byte
+	if v6 {
+		var e capturetypes.EPHashV6
+		e, aux, errno = capture.ParsePacketV6(slimcap.IPLayer(buf))
+		h = e[:]
+	} else {
+		var e capturetypes.EPHashV4
+		e, aux, errno = capture.ParsePacketV4(slimcap.IPLayer(buf))
+		h = e[:]
+	}
+	switch errno {
+	case capturetypes.ErrnoOK:
+		return obsT{Class: "ok", Hash: hex.EncodeToString(h), Aux: int(aux), hash: h}
+	case capturetypes.ErrnoPacketFragmentIgnore:
+		return obsT{Class: "frag"}
+	case capturetypes.ErrnoPacketTruncated:
+		return obsT{Class: "trunc"}
+	}
+	return obsT{Class: "errno:" + strconv.Itoa(int(errno))}
+}
+
+func reverse(v6 bool, h []byte) []byte {
+	if v6 {
+		var e capturetypes.EPHashV6
+		copy(e[:], h)
+		r := e.Reverse()
+		return r[:]
+	}
+	var e capturetypes.EPHashV4
+	copy(e[:], h)
+	r := e.Reverse()
+	return r[:]
+}
+
+func coqBytes(b []byte) string {
+	var sb strings.Builder
+	sb.WriteByte('[')
+	for i, c := range b {
+		if i > 0 {
+			sb.WriteByte(';')
+		}
+		sb.WriteString(strconv.Itoa(int(c)))
+	}
+	sb.WriteByte(']')
+	return sb.String()
+}
+
+func coqObs(o obsT) string {
+	switch {
+	case o.Class == "ok":
+		return "(OOk " + coqBytes(o.hash) + " " + strconv.Itoa(o.Aux) + ")"
+	case o.Class == "frag":
+		return "OFrag"
+	case o.Class == "trunc":
+		return "OTrunc"
+	case o.Class == "panic":
+		return "OPanic"
+	}
+	n, _ := strconv.Atoi(strings.TrimPrefix(o.Class, "errno:"))
+	return "(OErrno " + strconv.Itoa(n&0xff) + ")"
+}
+
+func lenClass(L lay, n int) string {
+	switch {
+	case n < L.hdr:
+		return "len<hdr"
+	case n == L.hdr:
+		return "len=hdr"
+	case n < L.hdr+4:
+		return "len<hdr+4"
+	case n < L.hdr+14:
+		return "len<hdr+14"
+	case n <= 80:
+		return "len<=80"
+	}
+	return "len>80"
+}
+
+func protoClass(L lay, p byte) string {
+	switch {
+	case p == 6:
+		return "tcp"
+	case p == 17:
+		return "udp"
+	case p == L.icmp:
+		return "icmp"
+	case p == 50:
+		return "esp"
+	case p < 18:
+		return "proto<18"
+	}
+	return "proto-other"
+}
+
+func isDocCommon(proto byte, port int) bool {
+	switch proto {
+	case 6:
+		return port == 53 || port == 80 || port == 443 || port == 445 || port == 8080
+	case 17:
+		return port == 53 || port == 443
+	}
+	return false
+}
+
+func run(raw json.RawMessage, o vhlib.Opts) (*vhlib.Case, error) {
+	var in input
+	if err := json.Unmarshal(raw, &in); err != nil {
+		return nil, err
+	}
+	c := &vhlib.Case{Tags: []string{in.Kind}}
+	ver := "v4"
+	if in.V6 {
+		ver = "v6"
+	}
+	switch in.Kind {
+	case "table":
+		// exhaustive: all 256 protocol bytes x all 65536 two-byte ports
+		var ents []string
+		var list [][3]int
+		panicked := false
+		for pr := 0; pr < 256; pr++ {
+			for hi := 0; hi < 256; hi++ {
+				for lo := 0; lo < 256; lo++ {
+					var v bool
+					if p, _ := vhlib.Recover(func() { v = capture.VerifIsCommonPort([]byte{byte(hi), byte(lo)}, byte(pr)) }); p {
+						panicked = true
+						ents = append(ents, "(999,999,999)") // no table has this entry: corr and holds fail
+						list = append(list, [3]int{pr, hi, lo})
+						break
+					}
+					if v {
+						ents = append(ents, fmt.Sprintf("(%d,%d,%d)", pr, hi, lo))
+						list = append(list, [3]int{pr, hi, lo})
+					}
+				}
+			}
+		}
+		c.Observed = map[string]any{"true_set": list, "panicked": panicked, "probed": 256 * 65536}
+		c.Coq = "CTable [" + strings.Join(ents, ";") + "]"
+		c.Nontrivial = true
+		c.Tags = append(c.Tags, "exhaustive-256x65536")
+	case "rev":
+		h, err := hex.DecodeString(in.H)
+		if err != nil {
+			return nil, err
+		}
+		rv := reverse(in.V6, h)
+		c.Observed = map[string]any{"rev": hex.EncodeToString(rv)}
+		c.Coq = fmt.Sprintf("CRev %s %s %s", vhlib.CoqBool(in.V6), coqBytes(h), coqBytes(rv))
+		c.Nontrivial = true
+		c.Tags = append(c.Tags, ver)
+	case "parse":
+		p, err := hex.DecodeString(in.P)
+		if err != nil {
+			return nil, err
+		}
+		q, err := hex.DecodeString(in.Q)
+		if err != nil {
+			return nil, err
+		}
+		L := layout(in.V6)
+		op := parse(in.V6, p)
+		oq := parse(in.V6, q)
+		var rv []byte
+		if op.Class == "ok" {
+			rv = reverse(in.V6, op.hash)
+		}
+		c.Observed = map[string]any{"p": op, "q": oq, "rev": hex.EncodeToString(rv)}
+		c.Coq = fmt.Sprintf("CParse %s %s %s %s %s %s", vhlib.CoqBool(in.V6), coqBytes(p), coqObs(op), coqBytes(rv), coqBytes(q), coqObs(oq))
+		c.Tags = append(c.Tags, ver, "gen:"+in.Gen, lenClass(L, len(p)), "p:"+op.Class, "q:"+oq.Class)
+		if len(p) >= L.hdr {
+			pr := p[L.protoPos]
+			c.Tags = append(c.Tags, protoClass(L, pr))
+			if hasPorts(pr) && len(p) >= L.hdr+4 {
+				sp, dp := int(p[L.hdr])<<8|int(p[L.hdr+1]), int(p[L.hdr+2])<<8|int(p[L.hdr+3])
+				switch cs, cd := isDocCommon(pr, sp), isDocCommon(pr, dp); {
+				case cs && cd:
+					c.Tags = append(c.Tags, "ports:both-common")
+				case cs:
+					c.Tags = append(c.Tags, "ports:sport-common")
+				case cd:
+					c.Tags = append(c.Tags, "ports:dport-common")
+				default:
+					c.Tags = append(c.Tags, "ports:none-common")
+				}
+			}
+		}
+		c.Nontrivial = len(p) >= L.hdr
+	default:
+		return nil, fmt.Errorf("unknown kind %q", in.Kind)
+	}
+	return c, nil
+}
+
+func main() { vhlib.Main(gen, run) }
